@@ -61,7 +61,14 @@ let observe (tx : fixed_tx) (ops : op list) : string * string =
      (match tx.ft_aux with Some a -> hex_of_bytes a | None -> "~")
      (hex_of_bytes (encode_wits tx.ft_wits)) (hex_of_bytes (encode_fixed tx)) (hex_of_bytes tx.ft_hash) e, e)
 
+let n_loaded = ref 0 and n_covered = ref 0
 let is_setter = function OSetBody _ | OSetWits _ | OSetAux _ -> true | _ -> false
+(* the setter's argument lies in the sub-stream the schema decoder covers: the library must accept it *)
+let setter_covered = function
+  | OSetBody b -> body_covered b
+  | OSetAux a -> aux_covered (Some a)
+  | OSetWits w -> (match decode_wits w with Ok (ws, _) -> wits_covered ws | _ -> false)
+  | _ -> false
 
 (* input: the bytes the judge reads (for txn/txb: the four-element transaction assembled from the arguments) *)
 let run_tx (load : fixed_tx result) (judge_input : n list option) (optoks : string list) (impl : string list) : string * string =
@@ -76,7 +83,10 @@ let run_tx (load : fixed_tx result) (judge_input : n list option) (optoks : stri
   | Panic -> ("panic", "na")
   | OutOfFuel -> ("outoffuel", "na")
   | Ok tx ->
-    if impl = ["err"] then ("skip impl-rejects", "na") else
+    (* a library rejection is tolerated only outside the sub-stream the C01 schema decoder covers *)
+    let cov = tx_covered tx in
+    incr n_loaded; if cov then incr n_covered;
+    if impl = ["err"] && not cov then ("skip impl-rejects", "na") else
     let ops = List.map parse_op optoks in
     (try
       let (m, e) = observe tx ops in
@@ -85,7 +95,7 @@ let run_tx (load : fixed_tx result) (judge_input : n list option) (optoks : stri
         let ie = (match field impl "e" with Some s -> s | None -> "-") in
         let refine = ref false in
         List.iteri (fun i o -> if is_setter o && i < String.length ie && i < String.length e
-                                  && ie.[i] = '1' && e.[i] = '0' then refine := true) ops;
+                                  && ie.[i] = '1' && e.[i] = '0' && not (setter_covered o) then refine := true) ops;
         if !refine then ("skip impl-rejects-op", "na") else begin
           let v =
             match judge_input, field impl "b", field impl "a", field impl "w", field impl "t", field impl "hp" with
@@ -102,6 +112,20 @@ let run_tx (load : fixed_tx result) (judge_input : n list option) (optoks : stri
     with No_oracle -> ("skip no-oracle", "na")
        | Model_panic -> ("panic", "na")
        | Model_oof -> ("outoffuel", "na"))
+
+(* block observations *)
+let bodies_obs (l : (n list * n list) list) : string =
+  Printf.sprintf "n=%d o=%s hq=%s" (List.length l)
+    (if l = [] then "-" else String.concat "," (List.map (fun (o, _) -> hex_of_bytes o) l))
+    (if l = [] then "-" else String.concat "" (List.map (fun (o, h) -> if o = h then "y" else "n") l))
+let block_fields (impl : string list) : n list list * bool list * n list option =
+  let origs = (match field impl "o" with
+      | Some "-" | None -> [] | Some s -> List.map bytes_of_hex (String.split_on_char ',' s)) in
+  let hq = (match field impl "hq" with
+      | Some "-" | None -> [] | Some s -> List.init (String.length s) (fun i -> s.[i] = 'y')) in
+  let bh = (match field impl "bh" with
+      | Some s when String.length s > 0 && s.[0] <> '?' && s.[0] <> 'w' -> Some (bytes_of_hex s) | _ -> None) in
+  (origs, hq, bh)
 
 let res_map f = function Ok (x, _) -> Ok (f x) | Err -> Err | Panic -> Panic | OutOfFuel -> OutOfFuel
 
@@ -148,7 +172,7 @@ let run_mode () = run_driver (fun toks impl ->
     let bs = bytes_of_hex hexs in
     (match decode_fixed_body hid bs with
      | Ok ((raw, h), _) ->
-       if impl = ["err"] then ("skip impl-rejects", "na") else
+       if impl = ["err"] && not (body_covered raw) then ("skip impl-rejects", "na") else
        let v = (match field impl "o", field impl "hp" with
            | Some o, Some hp ->
              verdict_s (judge_datum bs (bytes_of_hex o)
@@ -156,6 +180,36 @@ let run_mode () = run_driver (fun toks impl ->
            | _ -> "na") in
        (Printf.sprintf "ok o=%s hp=%s" (hex_of_bytes raw) (hex_of_bytes h), v)
      | Err -> ("err", "na") | Panic -> ("panic", "na") | OutOfFuel -> ("outoffuel", "na"))
+  | ["fbs"; hexs] ->
+    let bs = bytes_of_hex hexs in
+    (match decode_fixed_bodies hid bs with
+     | Ok (l, _) ->
+       if impl = ["err"] then ("skip impl-rejects", "na") else
+       let (origs, hq, _) = block_fields impl in
+       (Printf.sprintf "ok %s" (bodies_obs l), verdict_s (judge_bodies bs origs hq))
+     | Err -> ((if impl <> ["err"] && array_slices bs = None then "skip impl-accepts-illformed" else "err"), "na")
+     | Panic -> ("panic", "na") | OutOfFuel -> ("outoffuel", "na"))
+  | ["blk"; hexs; _] ->
+    let bs = bytes_of_hex hexs in
+    (match decode_fixed_block hid bs with
+     | Ok (b, _) ->
+       if impl = ["err"] then ("skip impl-rejects", "na") else
+       let (origs, hq, bh) = block_fields impl in
+       (Printf.sprintf "ok %s bh=%s" (bodies_obs b.fb_bodies) (hex_of_bytes b.fb_hash), verdict_s (judge_block bs origs hq bh))
+     | Err -> ((if impl <> ["err"] && array_slices bs = None then "skip impl-accepts-illformed" else "err"), "na")
+     | Panic -> ("panic", "na") | OutOfFuel -> ("outoffuel", "na"))
+  | ["vblk"; hexs; _] ->
+    let bs = bytes_of_hex hexs in
+    (match decode_versioned_block hid bs with
+     | Ok ((era, b), _) ->
+       if impl = ["err"] then ("skip impl-rejects", "na") else
+       let (origs, hq, bh) = block_fields impl in
+       let v = (match array_slices bs with
+           | Some ([_; inner], _) -> verdict_s (judge_block inner origs hq bh)
+           | _ -> "na") in
+       (Printf.sprintf "ok era=%s %s bh=%s" (string_of_n (era_of era)) (bodies_obs b.fb_bodies) (hex_of_bytes b.fb_hash), v)
+     | Err -> ((if impl <> ["err"] && array_slices bs = None then "skip impl-accepts-illformed" else "err"), "na")
+     | Panic -> ("panic", "na") | OutOfFuel -> ("outoffuel", "na"))
   | _ -> ("driver-badcase", "na"))
 
 (* ================================================================ generation (untrusted) *)
@@ -506,11 +560,16 @@ let gen_tx_parts () : string * string * string * string option * noise =
   (body, wits, valid, aux, nz)
 
 let assemble (body, wits, valid, aux, _nz) : string =
-  let head, close = (match below 14 with
-      | 0 | 1 -> ("\x9f", "\xff") | 2 -> ("\x98\x04", "") | 3 -> ("\x99\x00\x04", "")
-      | 4 -> ("\x83", "") | 5 -> ("\x85", "") | 6 -> ("\x80", "") | 7 -> ("\x9b\x00\x00\x00\x00\x00\x00\x00\x04", "")
-      | _ -> ("\x84", "")) in
-  let valid = if chance 12 then "" else valid in                 (* the three-element form *)
+  let three = chance 12 in                                       (* the three-element legacy layout: no is_valid *)
+  let n = if three then 3 else 4 in
+  let head, close = (match below 16 with
+      | 0 | 1 | 2 -> ("\x9f", "\xff")
+      | 3 -> (Printf.sprintf "\x98%c" (Char.chr n), "") | 4 -> (Printf.sprintf "\x99\x00%c" (Char.chr n), "")
+      | 5 -> (Printf.sprintf "\x9a\x00\x00\x00%c" (Char.chr n), "")
+      | 6 -> (Printf.sprintf "\x9b\x00\x00\x00\x00\x00\x00\x00%c" (Char.chr n), "")
+      | 7 -> (String.make 1 (Char.chr (0x80 + [| 0; 2; 3; 4; 5 |].(below 5))), "")      (* possibly the wrong count *)
+      | _ -> (String.make 1 (Char.chr (0x80 + n)), "")) in
+  let valid = if three then "" else valid in
   let aux = (match aux with Some a -> a | None -> "\xf6") in
   let trail = if chance 10 then String.init (1 + below 4) (fun _ -> Char.chr (below 256)) else "" in
   head ^ body ^ wits ^ valid ^ aux ^ close ^ trail
@@ -592,6 +651,12 @@ let fixed_cases () : string list =
       "txn " ^ hex_of_string b ^ " " ^ hex_of_string ("\xa1\x00\x81" ^ vkw) ^ " 1 a10102 " ^ av;
       "fb " ^ hex_of_string b; "fb " ^ hex_of_string (b ^ "\xff\x01")
     ]) [tiny_body; tiny_body_tagged])
+  @ [ "blk 848081a080a0 80"; "blk 858081a080a080 80"; "blk 848081a080a080 80"; "blk 858081a080a0 80"; "blk 838081a080 80";
+      "blk 9f8081a080a0ff 80"; "blk 9f8081a080a080ff 80"; "blk 9f8081a080a0 80"; "blk 848082a0a1000180a0 80";
+      "blk 84809fa0a0ff80a0 80"; "blk 848081a0a0a0 80"; "blk 858081a080a0a0 80"; "blk 848082a0ff80a0 80";
+      "vblk 8207848081a080a0 80"; "vblk 9f07848081a080a0ff 80"; "vblk 8307848081a080a0 80"; "vblk 821b0000000100000000848081a080a0 80";
+      "vblk 821affffffff848081a080a0 80"; "vblk 8200848081a080a0 80"; "vblk 8208848081a080a0 80"; "vblk 8220848081a080a0 80";
+      "fbs 80"; "fbs 9fff"; "fbs 82a0a10000"; "fbs 82a0"; "fbs 81ff"; "fbs 9fa0a0ff00"; "fbs a0" ]
   @ List.map (fun h -> "pd " ^ h) [
       "00"; "1817"; "1b0000000000000001"; "20"; "3bffffffffffffffff"; "40"; "5f41014102ff"; "5fff"; "5840" ^ String.make 128 '1';
       "5841" ^ String.make 130 '1'; "5f5841" ^ String.make 130 '1' ^ "ff"; "80"; "9fff"; "d9010280"; "d90102d9010280"; "a0"; "bfff";
@@ -647,14 +712,14 @@ let gen_mode seed tier out =
   let scale = if tier = "thorough" then 8 else 1 in
   List.iter (fun l -> output_string oc (l ^ "\n")) (fixed_cases ());
   (* stream 1: valid transactions re-encoded with noise, with operation sequences *)
-  for _ = 1 to 300 * scale do
+  for _ = 1 to 250 * scale do
     let parts = gen_tx_parts () in
     let (body, wits, _, _, _) = parts in
     let s = assemble parts in
     Printf.fprintf oc "tx %s %s\n" (hex_of_string s) (String.concat " " (gen_ops ~wits body true))
   done;
   (* stream 2: the same, then damaged *)
-  for _ = 1 to 110 * scale do
+  for _ = 1 to 90 * scale do
     let parts = gen_tx_parts () in
     let (body, _, _, _, _) = parts in
     let s = mutate (assemble parts) in
@@ -693,8 +758,45 @@ let gen_mode seed tier out =
                           (true, true, true); (false, true, true); (true, true, false); (true, false, true)]
      | _ -> ())
   done;
+  (* stream 3c: blocks built from several noisy transactions: FixedBlock, FixedVersionedBlock, FixedTransactionBodies *)
+  for i = 1 to 36 * scale do
+    let nz = pick_noise () in
+    let nzl = { nz with widen = nz.widen / 3; indef = nz.indef / 3; chunk = nz.chunk / 3 } in
+    let it = gen_item (if chance 50 then blockPraos depth else block depth) (1 + below 3) in
+    (match it with
+     | IArray (_, [hdr; IArray (_, bodies); wits; aux; inv]) ->
+       let bodies = if chance 15 then [] else bodies in
+       let hdr_s = nstr nzl hdr in
+       let bodies_s = (let b = Buffer.create 256 in
+                       let strs = List.map (nstr nzl) bodies in
+                       if chance (max nz.indef 15) then (Buffer.add_char b '\x9f'; List.iter (Buffer.add_string b) strs; Buffer.add_char b '\xff')
+                       else (put_head nz b 4 (BZ.of_int (List.length strs)); List.iter (Buffer.add_string b) strs);
+                       Buffer.contents b) in
+       let with_inv = chance 60 in
+       let n = if with_inv then 5 else 4 in
+       let head, close = (match below 8 with
+           | 0 | 1 -> ("\x9f", "\xff") | 2 -> (Printf.sprintf "\x98%c" (Char.chr n), "")
+           | 3 -> (String.make 1 (Char.chr (0x80 + [| 3; 4; 5; 6 |].(below 4))), "")
+           | _ -> (String.make 1 (Char.chr (0x80 + n)), "")) in
+       let blk = head ^ hdr_s ^ bodies_s ^ nstr nzl wits ^ nstr nzl aux ^ (if with_inv then nstr nz inv else "") ^ close in
+       let blk = if chance 12 then mutate blk else blk in
+       (* the header slice offered to the harness as hash-preimage candidate: as the model delimits it (after damage too) *)
+       let hdr_s = (match decode_fixed_block hid (bytes_of_string blk) with
+           | Ok (b, _) -> let a = Array.of_list b.fb_header in String.init (Array.length a) (fun i -> Char.chr (int_of_n a.(i)))
+           | _ -> hdr_s) in
+       (match i mod 3 with
+        | 0 -> Printf.fprintf oc "fbs %s\n" (hex_of_string (if chance 15 then mutate bodies_s else bodies_s ^ (if chance 10 then "\x00" else "")))
+        | 1 -> Printf.fprintf oc "blk %s %s\n" (hex_of_string (blk ^ (if chance 10 then "\x01" else ""))) (hex_of_string hdr_s)
+        | _ ->
+          let era = (match below 12 with 0 -> "\x00" | 1 -> "\x01" | 2 -> "\x02" | 3 -> "\x05" | 4 -> "\x06" | 5 -> "\x08"
+                                    | 6 -> "\x18\x07" | 7 -> "\x1a\xff\xff\xff\xff" | 8 -> "\x1b\x00\x00\x00\x01\x00\x00\x00\x00"
+                                    | _ -> "\x07") in
+          let vh, vc = (match below 6 with 0 -> ("\x9f", "\xff") | 1 -> ("\x98\x02", "") | 2 -> ("\x83", "") | _ -> ("\x82", "")) in
+          Printf.fprintf oc "vblk %s %s\n" (hex_of_string (vh ^ era ^ blk ^ vc)) (hex_of_string hdr_s))
+     | _ -> ())
+  done;
   (* stream 4: datums *)
-  for i = 1 to 200 * scale do
+  for i = 1 to 160 * scale do
     let nz = pick_noise () in
     let size = [| 0; 1; 2; 3; 4; 6 |].(i mod 6) in
     let s = nstr { nz with untag = 0; shuffle = 0 } (gen_item (plutusData depth) size) in
@@ -710,4 +812,4 @@ let gen_mode seed tier out =
 
 let () =
   if Array.length Sys.argv >= 5 && Sys.argv.(1) = "gen" then gen_mode Sys.argv.(2) Sys.argv.(3) Sys.argv.(4)
-  else run_mode ()
+  else begin run_mode (); Printf.eprintf "transactions accepted by the model: %d, of which in the schema-covered sub-stream (exact comparison in both directions): %d\n" !n_loaded !n_covered end
